@@ -453,8 +453,15 @@ int harnessMain(int argc, char** argv, const HarnessDef& def) {
   }
 
   if (mode == "gen") {
+    long shrink_runs = 0;
+    long shrink_budget = getenv("VP_SHRINK_BUDGET") ? atol(getenv("VP_SHRINK_BUDGET")) : 600;
     bool ok = rc::check(def.prop, [&]() {
       Json::Value c = def.gen();
+      if (camp.failed && ++shrink_runs > shrink_budget) {
+        // shrinking budget used up: answer "passes" so that rapidcheck stops
+        // looking for smaller cases; the last failing case is kept.
+        return;
+      }
       Verdict v = runOne(c);
       if (v.discard) {
         RC_DISCARD("generator artefact");
